@@ -76,7 +76,9 @@ fn entropy_script(rng: &mut Rng) -> (Vec<u8>, usize, &'static str) {
 struct Packet {
     wire: Vec<u8>,
     msg: Vec<u8>,
-    sender_secret: Vec<u8>,
+    /// the sender's public key (compressed) and the wire bytes as they left the sender
+    sender_pub: Vec<u8>,
+    pristine: Vec<u8>,
     recipient_secret: Vec<u8>,
     has_key: bool,
     from_bsv: bool,
@@ -237,9 +239,9 @@ impl Scenario for EciesNet {
                                 verif_hooks::install_entropy(&script, 0x5eed);
                                 res = guard(|| ECIES::encrypt_with_ephemeral_private_key(&msg, &rk_pub).map_err(|e| e.to_string()));
                                 drawn = verif_hooks::uninstall_entropy();
-                                // the ephemeral key the library must have used: first valid candidate
-                                let good = &script[rejected * 32..(rejected * 32 + 32).min(script.len())];
-                                sender_secret = good.to_vec();
+                                // which key the library derives from its draw is its own business; the shipped code takes the
+                                // first candidate that is a valid scalar, which is recorded as a probe below
+                                sender_secret = vec![];
                             }
                             "exclude" => res = guard(|| ECIES::encrypt(&msg, &sk, &rk_pub, true).map_err(|e| e.to_string())),
                             "priv_encrypt_message" => res = guard(|| sk.encrypt_message(&msg).map_err(|e| e.to_string())),
@@ -265,19 +267,30 @@ impl Scenario for EciesNet {
                         // for priv_encrypt_message the recipient is the sender's own key (compressed flag of PrivateKey::from_bytes)
                         let (eff_rpub, eff_rsecret) = if mode == "priv_encrypt_message" { (rf::pubkey_of(&skey, true).unwrap(), skey.clone()) } else { (rpub.clone(), rkey.clone()) };
                         if mode == "ephemeral" {
-                            // E6: exactly (rejected+1)*32 bytes drawn, all from the script
+                            // entropy accounting is recorded, not judged (the statement does not prescribe a sampling method)
                             if let Some((d, _calls)) = &drawn {
-                                if d.len() != (rejected + 1) * 32 {
-                                    if ctx.violate("entropy", "entropy-draw-count:ephemeral".into(), format!("ephemeral encryption drew {} bytes of entropy for {} rejected candidates (expected {})", d.len(), rejected, (rejected + 1) * 32)) {
+                                ctx.probe(if d.len() == (rejected + 1) * 32 { "ephemeral_drew_32_bytes_per_candidate" } else { "ephemeral_drew_other_amount" });
+                            }
+                        }
+                        // E2: byte-identical to the independently computed BIE1 construction
+                        if mode == "ephemeral" {
+                            // the sender key is whatever the ciphertext carries; the standard construction is checked from the
+                            // recipient's side: an independent BIE1 peer holding the recipient key must recover the message
+                            ctx.probe("wire_equals_peer");
+                            match rf::bie1_decrypt(&eff_rsecret, None, &wire, true) {
+                                Ok(pt) if pt == msg => {
+                                    let good = &script[rejected * 32..(rejected * 32 + 32).min(script.len())];
+                                    if rf::pubkey_of(good, true).map(|p| p.as_slice() == &wire[4..37]).unwrap_or(false) {
+                                        ctx.probe("ephemeral_key_is_first_valid_candidate");
+                                    }
+                                }
+                                other => {
+                                    if ctx.violate("mismatch", "ephemeral-ciphertext-not-BIE1".into(), format!("an independent BIE1 peer holding the recipient key cannot open the ephemeral-key ciphertext: {:?}", other.map(|p| p.len()))) {
                                         return;
                                     }
                                 }
                             }
-                        } else if let Some((d, _)) = drawn.as_ref() {
-                            let _ = d;
-                        }
-                        // E2: byte-identical to the independently computed BIE1 construction
-                        if rf::is_valid_secret(&sender_secret) {
+                        } else if rf::is_valid_secret(&sender_secret) {
                             let want = rf::bie1_encrypt(&sender_secret, &eff_rpub, &msg, has_key).unwrap();
                             ctx.probe("wire_equals_peer");
                             if wire != want {
@@ -288,10 +301,12 @@ impl Scenario for EciesNet {
                             }
                         }
                         let held = Some((wire.clone(), ct));
-                        pkts[p] = Some(Packet { wire, msg, sender_secret, recipient_secret: eff_rsecret, has_key, from_bsv: true, held, flips: vec![], deliveries: 0 });
+                        let sender_pub = if mode == "ephemeral" { wire[4..37.min(wire.len())].to_vec() } else { rf::pubkey_of(&sender_secret, true).unwrap_or_default() };
+                        pkts[p] = Some(Packet { pristine: wire.clone(), wire, msg, sender_pub, recipient_secret: eff_rsecret, has_key, from_bsv: true, held, flips: vec![], deliveries: 0 });
                         continue;
                     }
-                    pkts[p] = Some(Packet { wire, msg, sender_secret, recipient_secret: rkey, has_key, from_bsv: false, held: None, flips: vec![], deliveries: 0 });
+                    let sender_pub = rf::pubkey_of(&sender_secret, true).unwrap_or_default();
+                    pkts[p] = Some(Packet { pristine: wire.clone(), wire, msg, sender_pub, recipient_secret: rkey, has_key, from_bsv: false, held: None, flips: vec![], deliveries: 0 });
                 }
                 "flip" => {
                     let pk = match pkts.get_mut(p).and_then(|x| x.as_mut()) {
@@ -338,7 +353,7 @@ impl Scenario for EciesNet {
                         continue;
                     }
                     let other = jhex(ev, "other");
-                    if !rf::is_valid_secret(&other) || other == pk.recipient_secret || other == pk.sender_secret {
+                    if !rf::is_valid_secret(&other) || other == pk.recipient_secret || rf::pubkey_of(&other, true).map(|p| p == pk.sender_pub).unwrap_or(true) {
                         ctx.skip();
                         continue;
                     }
@@ -348,7 +363,7 @@ impl Scenario for EciesNet {
                         ctx.probe("replayed");
                     }
                     // is the packet intact? compare with a pristine re-encryption
-                    let pristine = rf::bie1_encrypt(&pk.sender_secret, &rf::pubkey_of(&pk.recipient_secret, true).unwrap(), &pk.msg, pk.has_key).unwrap();
+                    let pristine = pk.pristine.clone();
                     let damaged: Vec<&'static str> = {
                         let mut d = vec![];
                         for (i, (a, b)) in pk.wire.iter().zip(pristine.iter()).enumerate() {
@@ -362,7 +377,7 @@ impl Scenario for EciesNet {
                         d
                     };
                     let rsecret = if key == "wrong_recipient" { other.clone() } else { pk.recipient_secret.clone() };
-                    let sender_pub_known = if key == "wrong_sender" { rf::pubkey_of(&other, true).unwrap() } else { rf::pubkey_of(&pk.sender_secret, true).unwrap() };
+                    let sender_pub_known = if key == "wrong_sender" { rf::pubkey_of(&other, true).unwrap() } else { pk.sender_pub.clone() };
                     if key == "wrong_recipient" {
                         ctx.fault("misdeliver:recipient");
                         ctx.probe("deliver_wrong_recipient");
